@@ -223,6 +223,9 @@ type kase struct {
 	Model        string `json:"model,omitempty"`
 	// history part: the operations applied to one library instance; Step is the judged one
 	History []histOp `json:"history,omitempty"`
+	// scope part: the program texts evaluated, in order (location -> source)
+	Programs []scopeProg `json:"programs,omitempty"`
+	Targets  []string    `json:"targets,omitempty"`
 	Step    int      `json:"step,omitempty"`
 }
 
@@ -486,6 +489,17 @@ func (w *worker) freshEnv() {
 			w.hasked = append(w.hasked, len(w.asked))
 			return lisp.String(w.hlocs[i])
 		}},
+		bdef{symSep, lisp.Formals("i"), func(env *lisp.LEnv, args *lisp.LVal) *lisp.LVal {
+			w.marks = append(w.marks, histSep(args.Cells[0].Int))
+			w.hasked = append(w.hasked, len(w.asked))
+			return lisp.Nil()
+		}},
+		bdef{symGoLoad, lisp.Formals("loc"), func(env *lisp.LEnv, args *lisp.LVal) *lisp.LVal {
+			return env.LoadFile(args.Cells[0].Str)
+		}},
+		bdef{symGoLoadCtx, lisp.Formals("loc"), func(env *lisp.LEnv, args *lisp.LVal) *lisp.LVal {
+			return env.LoadFileContext(context.Background(), args.Cells[0].Str)
+		}},
 		bdef{symHost, lisp.Formals(), func(env *lisp.LEnv, args *lisp.LVal) *lisp.LVal {
 			if w.used {
 				return env.Errorf("c20: the location under test was already consumed (recursive loader)")
@@ -737,6 +751,9 @@ func runKase(sb *sandbox, cwd *node, k kase) (kind, class, expected, got string,
 	if k.Part == "cwd" {
 		return runCwdKase(sb, cwd, k)
 	}
+	if k.Part == "scope" {
+		return runScopeKase(sb, cwd, k)
+	}
 	var ph *phaseCfg
 	phases := append(append([]phaseCfg(nil), rflPhases...), fsPhase)
 	for i := range phases {
@@ -970,7 +987,7 @@ func run(r *core.Run) {
 	d.precheck(info)
 
 	// development aid: C20_PARTS=rfl,fs,history restricts the run (reported as capped)
-	parts := map[string]bool{"rfl": true, "fs": true, "history": true, "cwd": true}
+	parts := map[string]bool{"rfl": true, "fs": true, "history": true, "cwd": true, "scope": true}
 	if s := os.Getenv("C20_PARTS"); s != "" {
 		parts = map[string]bool{}
 		for _, p := range strings.Split(s, ",") {
@@ -1110,6 +1127,11 @@ func run(r *core.Run) {
 	// ---- part four: the process working directory (and $PWD) as a dimension
 	if parts["cwd"] && !r.Expired() && !r.Saturated() {
 		d.runCwd(tot, info, &mu)
+	}
+
+	// ---- part five: where the load call sits (lexical scope, function defined in another file)
+	if parts["scope"] && !r.Expired() && !r.Saturated() {
+		d.runScopes(tot, info, &mu)
 	}
 
 	// outcome classes: counted locally (a shared counter per case would serialise
